@@ -149,6 +149,12 @@ Inductive send_outcome :=
 | SDropped                                    (* Ok(()) and nothing reaches any peer *)
 | SSent (u : uri) (wire : list frame).        (* Ok(()) and `wire` was handed to the connection of u *)
 
+(* send_multipart step 4 + the flag loop after it: the strategy's frames, then
+   `for (i, f) in wire.iter_mut().enumerate() { if i < n-1 { |MORE } else { &!MORE } }`
+   (on an empty wire the loop body, and with it `n - 1`, is never evaluated) *)
+Definition router_wire (s : strat) (manual : bool) (idm : frame) (payload : list frame) : list frame :=
+  norm_flags (strat_prepare s manual idm payload).
+
 (* send_multipart(frames): first frame is the destination identity *)
 Definition router_send_multipart (mandatory manual : bool) (conn : uri -> conn_state) (hint : pipe)
            (m : rmap) (frames : list frame) : rmap * send_outcome :=
@@ -164,7 +170,7 @@ Definition router_send_multipart (mandatory manual : bool) (conn : uri -> conn_s
               match conn u with
               | CGone => (remove_peer_by_identity hint (snd idm) m, if mandatory then SUnreachable else SDropped)
               | CClosed => (m, if mandatory then SUnreachable else SDropped)
-              | COk => (m, SSent u (clear_last (strat_prepare s manual idm payload)))
+              | COk => (m, SSent u (router_wire s manual idm payload))
               end
           end
       end
